@@ -17,11 +17,11 @@ import (
 // short inputs of the header decoder.
 func init() { Registry["C19"] = c19 }
 
-var c19Alpha = []string{"u8", "u16", "u32", "u64", "u128", "w1", "w3", "align"}
+var c19Alpha = []string{"u8", "u16", "u32", "u64", "u128", "w1", "w3", "align", "ch"}
 
 func c19Width(op string) int {
 	switch op {
-	case "u8", "w1":
+	case "u8", "w1", "ch":
 		return 1
 	case "u16":
 		return 2
@@ -78,6 +78,8 @@ func c19Seq(r *ev.Run, seq []int, variant uint64) (viol bool) {
 		switch op {
 		case "u8":
 			e.PutUint8(uint8(v))
+		case "ch":
+			e.PutChar(byte(v >> 8))
 		case "u16":
 			e.PutUint16(uint16(v))
 		case "u32":
@@ -123,6 +125,10 @@ func c19Seq(r *ev.Run, seq []int, variant uint64) (viol bool) {
 		case "u8":
 			if g := d.ReadUint8(); g != uint8(w.val) {
 				bad("value:u8", fmt.Sprintf("ReadUint8 = %#x, wrote %#x", g, uint8(w.val)))
+			}
+		case "ch":
+			if g := d.ReadByte(); g != byte(w.val>>8) {
+				bad("value:char", fmt.Sprintf("ReadByte = %#x, PutChar wrote %#x", g, byte(w.val>>8)))
 			}
 		case "u16":
 			if g := d.ReadUint16(); g != uint16(w.val) {
@@ -369,6 +375,42 @@ func c19(r *ev.Run, replay string) {
 	if !r.Expired() {
 		r.Completed(fmt.Sprintf("all write/read sequences of length <= %d over %v", depth, c19Alpha))
 	}
+	// complete value domains of the narrow primitives: every 8-bit value through PutChar, PutUint8
+	// and a one-byte Write (read back with ReadByte and ReadUint8), every 16-bit value through PutUint16
+	for v := 0; v < 256; v++ {
+		for _, how := range []string{"PutChar", "PutUint8", "Write"} {
+			e := ofbase.NewEncoder()
+			switch how {
+			case "PutChar":
+				e.PutChar(byte(v))
+			case "PutUint8":
+				e.PutUint8(uint8(v))
+			default:
+				e.Write([]byte{byte(v)})
+			}
+			e.PutUint8(0xa5)
+			b := e.Bytes()
+			ok := len(b) == 2 && b[0] == byte(v) && b[1] == 0xa5
+			if ok {
+				d := ofbase.NewDecoder(append([]byte{}, b...))
+				ok = d.ReadByte() == byte(v) && d.Offset() == 1 && d.ReadUint8() == 0xa5
+			}
+			nseq++
+			if !ok {
+				r.Violation("value-domain:"+how, fmt.Sprintf("%s(%#02x) followed by PutUint8(0xa5) encodes to % x", how, v, b), map[string]any{"ops": []string{"ch"}, "variant": uint64(v) << 8})
+			}
+		}
+	}
+	for v := 0; v < 65536; v++ {
+		e := ofbase.NewEncoder()
+		e.PutUint16(uint16(v))
+		b := e.Bytes()
+		nseq++
+		if len(b) != 2 || b[0] != byte(v>>8) || b[1] != byte(v) || ofbase.NewDecoder(append([]byte{}, b...)).ReadUint16() != uint16(v) {
+			r.Violation("value-domain:PutUint16", fmt.Sprintf("PutUint16(%#04x) encodes to % x", v, b), map[string]any{"ops": []string{"u16"}, "variant": uint64(v)})
+		}
+	}
+	r.Completed("every 8-bit value through PutChar / PutUint8 / Write(1 byte), every 16-bit value through PutUint16")
 	// slicing geometries
 	var ngeo int64
 	for p := 0; p <= 16; p++ {
